@@ -248,6 +248,11 @@ def r3(run):
             continue
         cmp_ = q.comparison(si["cond"])
         if not cmp_:
+            from .store_shared import comparison_through_option
+            cto = comparison_through_option(run, live, si["cond"])
+            # `opt.is_some_and(|c| frame.context_id != c)`: the false edge is `no context requested, or equal`
+            cmp_ = cto[:3] if cto and cto[3] == "some_and" and cto[0] == "ne" else None
+        if not cmp_:
             continue
         rel, l, r = cmp_
         if rel not in ("eq", "ne"):
